@@ -409,6 +409,15 @@ def shrink(prop, judge_fn, inp, obs, want, rounds=8):
 
 
 # --------------------------------------------------------------------------
+def safe_describe(prop, inp, ob):
+    if not prop.get('describe'):
+        return None
+    try:
+        return prop['describe'](inp, ob)
+    except Exception:
+        return 'input %s' % canon(inp)[:300]
+
+
 def load_known_findings():
     path = os.path.join(ROOT, 'known_findings.txt')
     found = []
@@ -586,7 +595,7 @@ def decide(prop, tier, seed, t0):
                 continue
             payload = dict(property=pid, kind='failing-input', key=key2, input=inp, observed=ob,
                            model=model_show(prop, inp, ob), count=len(idxs),
-                           description=prop['describe'](inp, ob) if prop.get('describe') else None,
+                           description=safe_describe(prop, inp, ob),
                            how='the real code was run on `input` and answered `observed`; the property predicate of Corr/%s.v evaluated on that answer is false' % prop['corr'])
             path = write_replay(pid, payload)
             log('VIOLATION property=%s replay=%s' % (pid, path))
@@ -608,7 +617,7 @@ def decide(prop, tier, seed, t0):
         if extra_fail:
             inp, ob = extra_fail
             payload = dict(property=pid, kind='failing-input', input=inp, observed=ob, model=model_show(prop, inp, ob),
-                           description=prop['describe'](inp, ob) if prop.get('describe') else None)
+                           description=safe_describe(prop, inp, ob))
             path = write_replay(pid, payload)
             log('VIOLATION property=%s replay=%s' % (pid, path))
             reported += 1
@@ -650,7 +659,7 @@ def decide(prop, tier, seed, t0):
     samples = []
     for i in range(0, len(inputs), max(1, len(inputs) // 3)):
         if verdicts[i] is not None:
-            samples.append(dict(input=canon(inputs[i]), observed=canon(obs[i]), meaning=(prop['describe'](inputs[i], obs[i]) if prop.get('describe') else None)) if tree_size(inputs[i]) + tree_size(obs[i]) < 400 else dict(input_size=tree_size(inputs[i]), input_head=canon(inputs[i])[:300]))
+            samples.append(dict(input=canon(inputs[i]), observed=canon(obs[i]), meaning=safe_describe(prop, inputs[i], obs[i])) if tree_size(inputs[i]) + tree_size(obs[i]) < 400 else dict(input_size=tree_size(inputs[i]), input_head=canon(inputs[i])[:300]))
         if len(samples) >= 3:
             break
     if gate:
@@ -698,7 +707,7 @@ def replay(prop, path):
     obs, verdicts = judge_inputs(prop, [inp], 'replay')
     log('input:    ', canon(inp))
     if prop.get('describe'):
-        log('meaning:  ', prop['describe'](inp, obs[0]))
+        log('meaning:  ', safe_describe(prop, inp, obs[0]))
     log('observed: ', canon(obs[0]))
     log('model:    ', model_show(prop, inp, obs[0]))
     v = verdicts[0]
